@@ -246,6 +246,7 @@ func Run(r *vk.Run) {
 	pool(len(templates), func(i int) { guarded(r, templates[i], func() { rp.seq(templates[i], Judge(templates[i])) }) })
 	pool(len(legacy), func(i int) { guarded(r, legacy[i], func() { rp.seq(legacy[i], Judge(legacy[i])) }) })
 	guarded(r, "write-fault probes", func() { writeFaultProbes(r) })
+	guarded(r, "bound-change probes", func() { boundChangeProbes(r, r.Rand("bound-change"), r.N(300, 6000)) })
 
 	// 2. concurrent histories (unique ids: outside both trigger regions)
 	var cmu sync.Mutex
